@@ -29,7 +29,7 @@ def instance_ub(d):
     tot += sum(sum(d["pin_" + t]) for t in ("cr", "sf", "meat", "scp", "cs", "sw")) * 1.0001
     return 2.0 * max(1.0, tot, 100.0 * tot / d["need"])
 
-CERT_IMPORTS = lpcase.IMPORTS + "\nFrom Allfed Require Import Model.LPCert."
+CERT_IMPORTS = lpcase.IMPORTS + "\nFrom Allfed Require Import Model.LPCert Model.LPBound."
 
 
 def certificate(rec):
@@ -42,11 +42,21 @@ def certificate(rec):
     if abs(rep - opt) / (1.0 + abs(opt)) > REL:
         return None           # CBC precision gap (triaged by the audit): nothing to certify at 2e-6
     y = [0.0 if abs(v) < 1e-13 else v for v in y]
-    claimed = rep * (1 + REL) + 1e-7
+    # what is certified: no feasible allocation achieves more than reported x (1 + 5e-6) + 1e-5
+    claimed = rep * (1 + 5e-6) + 1e-5
     ty = lpcase.coq_ty(rec["ty"])
-    ub = instance_ub(rec["lp_in"])
-    return (f"Definition x_y : list Q := {fql(y)}.\n",
-            f"(if check_cert (build x_in {ty}) x_y {fq(ub)} {fq(claimed)} then 0 else 1)%nat")
+    d = rec["lp_in"]
+    if d["store_years"] or not d["add_sf"]:
+        # unconditional: Model/LPBound.cert_ok computes the bound on every variable itself and checks the input hypotheses;
+        # Proofs/LP_Bound.cert_ok_sound then gives optimality for the model's LP AND for the specification Physical
+        term = f"(if cert_ok x_in {ty} x_y {fq(claimed)} then 0 else 1)%nat"
+        kind = "unconditional"
+    else:
+        # first-year-only stock regime: SF_end m (m > 12) is genuinely unbounded (first_year_regime_unbounded), so the
+        # certificate is conditional on the instance bound computed here
+        term = f"(if check_cert (build x_in {ty}) x_y {fq(instance_ub(d))} {fq(claimed)} then 0 else 1)%nat"
+        kind = "conditional"
+    return (f"Definition x_y : list Q := {fql(y)}.\n", term, kind)
 
 
 def run(ctx):
@@ -134,7 +144,7 @@ def run(ctx):
                 c = certificate(rec)
                 if c:
                     cert_specs.append((lpcase.instance_defs("x", {"lp_in": rec["lp_in"]}) + c[0], [c[1]]))
-                    cert_meta.append({"synthetic": True, "N": d["NM"], "ty": d["ty"]})
+                    cert_meta.append({"synthetic": True, "N": d["NM"], "ty": d["ty"], "certificate": c[2]})
             ctx.sample({"kind": "synthetic", "N": d["NM"], "ty": d["ty"], "reported": rec["percent_fed_from_model"]}, limit=3)
     nreal_cert = [0]
     for run_ in res["real"]:
@@ -156,7 +166,7 @@ def run(ctx):
                 if c:
                     nreal_cert[0] += 1
                     cert_specs.append((lpcase.instance_defs("x", {"lp_in": rec["lp_in"]}) + c[0], [c[1]]))
-                    cert_meta.append(where)
+                    cert_meta.append(dict(where, certificate=c[2]))
             if ok and "rows" in rec and (k == 0 or not ctx.quick):
                 scale = lpcase.scale_of(rec["lp_in"])
                 file_specs.append((lpcase.instance_defs("x", {k2: rec[k2] for k2 in ("lp_in", "rows")}),
@@ -176,17 +186,20 @@ def run(ctx):
         first = next(m for m, c in zip(meta, codes) if c[0] != 0)
         ctx.broken.append(f"correspondence Model/LP.build vs Optimizer rows: {nbad} instances differ, first {first}")
     # ---- per-instance optimality certificates, evaluated in the kernel's VM against the MODEL's rows
-    okc, badc, _ = ctx.build(["Proofs/LPCert.vo"])
+    okc, badc, _ = ctx.build(["Proofs/LP_Bound.vo"])
     if okc and cert_specs:
         ccodes = ctx.coq_codes_files("c02cert", CERT_IMPORTS, cert_specs, timeout=2400)
         rejected = [m for m, c in zip(cert_meta, ccodes) if c[0] != 0]
-        dist["certificates"] = {"checked": len(ccodes), "accepted": len(ccodes) - len(rejected), "rel": REL,
-                                "ub": "2 x max(1, T, 100 T / need) with T the sum of all supplies, charges, ceilings and pins of the instance"}
-        ctx.assumptions.append("certificates: every quantity of a feasible allocation is below the instance bound ub (hypothesis of "
-                               "check_cert_optimal; discharged in Coq by Proofs/LP_Bound.v when that file is present)")
+        dist["certificates"] = {"checked": len(ccodes), "accepted": len(ccodes) - len(rejected), "certified_bound": "reported x (1 + 5e-6) + 1e-5",
+                                "unconditional": sum(1 for m in cert_meta if m.get("certificate") == "unconditional"),
+                                "conditional": sum(1 for m in cert_meta if m.get("certificate") == "conditional")}
+        ctx.assumptions.append("certificates in the first-year-only stock regime are conditional on every quantity being below "
+                               "2 x max(1, T, 100 T / need) (T = all supplies, charges, ceilings, pins of the instance): there "
+                               "SF_end m, m > 12, is unbounded (theorem first_year_regime_unbounded); all other certificates are "
+                               "unconditional (cert_ok_sound)")
         for m in rejected[:3]:
             ctx.violation("C02:certificate-rejected", f"the duality certificate for the reported optimum is rejected on {m} "
-                          "(the reported value is not certified optimal for the model's LP within 2e-6)",
+                          "(the reported value is not certified optimal for the model's LP within 5e-6 relative + 1e-5)",
                           {"kind": "counterexample", "where": m})
     elif not okc:
         ctx.proof_ok = False
